@@ -75,6 +75,8 @@ def r12_1_4(ctx, A):
             em = okv in (('citem', 'raw::EMPTY_ADDRESS'), ('const', 0))
             if em:
                 seen.add('empty')
+    if 'emit' in seen and 'record' not in seen:
+        ctx.violation(R1, 'record-after-emit', 'a newly emitted node is never recorded in the cache (no path stores its address in the cell the lookup handed back): every later equal node is emitted again', fn=f)
     ctx.check(R1, {'emit', 'record', 'hit'} <= seen, 'paths', 'compiler paths recognised: %s' % sorted(seen), fn=f, kind='undecided')
     callers = sorted(cg.rev.get(f.path, ()))
     names = sorted(c.rsplit('::', 1)[-1] for c in callers)
